@@ -90,7 +90,7 @@ static void case_fn(uint64_t idx, void *ctx)
     mc_esc(raw, strlen(raw), e, sizeof e);
     for (int di = 0; di < NDELIMS; di++) {
         const char *d = DELIMS[di];
-        toks_t ref; ref_split(d, raw, &ref);
+        toks_t ref; memset(&ref, 0, sizeof ref); ref_split(d, raw, &ref);
         char *s = mc_heapstr(raw);                                   /* exact-size block: one byte past the terminator is a redzone */
         char *hd = mc_heapstr(d);
         /* ---- spiftool_split */
@@ -140,6 +140,19 @@ static void case_fn(uint64_t idx, void *ctx)
               for (int i = 0; i < tn && !bad; i++) { spif_str_t ts = SPIF_STR(SPIF_LIST_GET(tl, i)); char r[24]; strcpy(r, ref.t[i]); trim(r); if (strcmp((ts && ts->s) ? (char *) ts->s : "", r)) bad = 1; }
               if (bad) FAIL("spif_tok_done", "model:reuse", shape, "a tokenizer that used other quote/escape characters before done() gives %d tokens that differ from the grammar's %d (delimiters %s)", tn, ref.n, d ? d : "whitespace"); }
           spif_tok_del(u); }
+        /* the same text with the quote, double-quote and escape characters replaced by 0xAB, 0xB4 and 0xA5, given to a tokenizer told to use those: the same tokens, letter for letter */
+        { char m[40]; size_t ml = strlen(raw); for (size_t i = 0; i <= ml; i++) m[i] = raw[i] == '\'' ? (char) 0xAB : (raw[i] == '"' ? (char) 0xB4 : (raw[i] == '\\' ? (char) 0xA5 : raw[i]));
+          char *hm = mc_heapstr(m);
+          spif_tok_t u = spif_tok_new_from_ptr((spif_charptr_t) hm);
+          spif_tok_set_quote(u, (char) 0xAB); spif_tok_set_dquote(u, (char) 0xB4); spif_tok_set_escape(u, (char) 0xA5);
+          if (d) spif_tok_set_sep(u, spif_str_new_from_ptr((spif_charptr_t) hd));
+          if (!spif_tok_eval(u)) FAIL("spif_tok_eval", "model:return", shape, "eval with quote/escape characters above 0x7f returned FALSE");
+          else { spif_list_t tl = spif_tok_get_tokens(u); int tn = tl ? (int) SPIF_LIST_COUNT(tl) : 0, bad = tn != ref.n;
+              for (int i = 0; i < tn && !bad; i++) { spif_str_t ts = SPIF_STR(SPIF_LIST_GET(tl, i)); char r[24]; strcpy(r, ref.t[i]); trim(r);
+                  for (char *c = r; *c; c++) *c = *c == '\'' ? (char) 0xAB : (*c == '"' ? (char) 0xB4 : (*c == '\\' ? (char) 0xA5 : *c));
+                  if (strcmp((ts && ts->s) ? (char *) ts->s : "", r)) bad = 1; }
+              if (bad) FAIL("spif_tok_eval", "model:custom-characters", shape, "with quote 0xAB, double quote 0xB4 and escape 0xA5 the text gives %d tokens that are not the grammar's %d (delimiters %s)", tn, ref.n, d ? d : "whitespace"); }
+          spif_tok_del(u); free(hm); }
         if (sl) { for (int i = 0; i < got; i++) free(sl[i]); free(sl); }
         if (ref.n > 1 || strpbrk(raw, "\"'\\")) mc_nontrivial();
         mc_outcome(mc_hash(&ref, sizeof(int) + (size_t) ref.n * 24) + (uint64_t) di);
@@ -205,6 +218,34 @@ static void rt_case(uint64_t idx, void *ctx)
     mc_nontrivial();
 }
 
+/* ---- inputs of very many tokens (counts around 255/256, 65535/65536 and beyond): split, tok and num_words still agree, token by token */
+static const long MANY[] = { 255, 256, 257, 4096, 65535, 65536, 65537, 70000 };
+#define NMANY ((int) (sizeof MANY / sizeof MANY[0]))
+static void many_desc(uint64_t idx, void *ctx, char *b, size_t n) { (void) ctx; snprintf(b, n, "split / tok / num_words on %ld one-letter tokens separated by %s", MANY[idx / 2], idx % 2 ? "\",\" (delimiter set \",\")" : "blanks"); }
+static void many_case(uint64_t idx, void *ctx)
+{
+    long n = MANY[idx / 2]; int comma = (int) (idx % 2); (void) ctx;
+    const char *shape = n < 256 ? "fewer than 256 tokens" : (n < 65536 ? "256..65535 tokens" : "65536 or more tokens"); mc_set_shape(shape);
+    char *s = malloc((size_t) n * 2 + 1); for (long i = 0; i < n; i++) { s[2 * i] = (char) ('a' + i % 26); s[2 * i + 1] = comma ? ',' : ' '; } s[2 * n - 1] = 0;
+    char *hd = comma ? mc_heapstr(",") : NULL;
+    char **sl = (char **) spiftool_split((spif_charptr_t) hd, (spif_charptr_t) s);
+    long got = 0; if (sl) while (sl[got] && got <= n + 2) got++;
+    if (got != n) FAIL("spiftool_split", "model:token-count", shape, "%ld tokens for an input of %ld tokens", got, n);
+    else for (long i = 0; i < n; i++) if (sl[i][0] != (char) ('a' + i % 26) || sl[i][1]) { FAIL("spiftool_split", "model:token", shape, "token %ld of %ld is \"%.8s\"", i, n, sl[i]); break; }
+    if (sl) { for (long i = 0; i < got; i++) free(sl[i]); free(sl); }
+    spif_tok_t t = spif_tok_new_from_ptr((spif_charptr_t) s);
+    if (comma) spif_tok_set_sep(t, spif_str_new_from_ptr((spif_charptr_t) hd));
+    if (!spif_tok_eval(t)) FAIL("spif_tok_eval", "model:return", shape, "eval returned FALSE");
+    else { spif_list_t tl = spif_tok_get_tokens(t); long tn = tl ? (long) SPIF_LIST_COUNT(tl) : 0;
+        if (tn != n) FAIL("spif_tok_eval", "model:token-count", shape, "%ld tokens for an input of %ld tokens", tn, n);
+        else { spif_str_t last = SPIF_STR(SPIF_LIST_GET(tl, (spif_listidx_t) (n - 1))); if (!last || !last->s || last->s[0] != (char) ('a' + (n - 1) % 26) || last->s[1]) FAIL("spif_tok_eval", "model:token", shape, "the last of %ld tokens is wrong", n); } }
+    spif_tok_del(t);
+    if (!comma) { unsigned long nw = spiftool_num_words((spif_charptr_t) s); if ((long) nw != n) FAIL("spiftool_num_words", "model:return", shape, "num_words=%lu for %ld words", nw, n);
+        char *w = (char *) spiftool_get_word((unsigned long) n, (spif_charptr_t) s); if (!w || w[0] != (char) ('a' + (n - 1) % 26) || w[1]) FAIL("spiftool_get_word", "model:word", shape, "get_word(%ld) of %ld words is \"%.8s\"", n, n, w ? w : "(null)"); free(w); }
+    free(s); free(hd);
+    mc_nontrivial();
+    mc_outcome((uint64_t) got * 2 + (uint64_t) comma);
+}
 int main(int argc, char **argv)
 {
     mc_init("C12", argc, argv);
@@ -215,6 +256,7 @@ int main(int argc, char **argv)
     SYM[1] = (char) hb;
     mc_info("alphabet", "all strings of length <= %d over {a,b (or the byte given with --hb),space,',','\"','\\'','\\\\',tab} x delimiter sets {whitespace, \",\", \", \", and two sets of 16 characters that differ in the last one (comma / tab)}; word indices 0..num_words+2; join/split round trips of <= 4 plain tokens", N);
     mc_e2_level("roundtrip", 4, 3 * 4 * 6 * 6 * 6 * 6, rt_case, rt_desc, NULL);
+    if (hb == 'b' && !mc_have_msan()) mc_e2_level("many_tokens", 70000, (uint64_t) NMANY * 2, many_case, many_desc, NULL);
     for (g_len = 0; g_len <= N; g_len++)
         if (!mc_e2_level("tokens", g_len, mc_words_of_len(NSYM, g_len), case_fn, desc, NULL)) break;
     return mc_finish();
